@@ -331,6 +331,48 @@ def kwargs_calls(source):
     return ast.unparse(tree) + '\n'
 
 
+class _Hoist(ast.NodeTransformer):
+    """ "x = f(g(a), b)" -> "_t1 = g(a); x = f(_t1, b)" for simple statements whose outer call has a nested call as an
+    argument and otherwise only names / constants / attribute chains (no evaluation order changes that could matter). """
+
+    def __init__(self):
+        self.n = 0
+
+    @staticmethod
+    def _simple(e):
+        return isinstance(e, (ast.Name, ast.Constant)) or (isinstance(e, ast.Attribute) and _Hoist._simple(e.value))
+
+    def _body(self, stmts):
+        out = []
+        for st in stmts:
+            val = st.value if isinstance(st, (ast.Assign, ast.Expr, ast.Return)) and getattr(st, 'value', None) is not None else None
+            if isinstance(val, ast.Call) and self._simple(val.func) and not val.keywords:
+                inner = [i for i, a in enumerate(val.args) if isinstance(a, ast.Call)]
+                others = [a for i, a in enumerate(val.args) if i not in inner]
+                if len(inner) == 1 and all(self._simple(a) for a in others) and not any(isinstance(a, ast.Starred) for a in val.args):
+                    self.n += 1
+                    tmp = '_t%d' % self.n
+                    out.append(ast.copy_location(ast.Assign([ast.Name(tmp, ast.Store())], val.args[inner[0]]), st))
+                    val.args[inner[0]] = ast.Name(tmp, ast.Load())
+            out.append(st)
+        return out
+
+    def generic_visit(self, node):
+        super().generic_visit(node)
+        for fld in ('body', 'orelse', 'finalbody'):
+            if isinstance(getattr(node, fld, None), list) and isinstance(node, (ast.FunctionDef, ast.If, ast.For, ast.While, ast.With, ast.Try, ast.ExceptHandler)):
+                setattr(node, fld, self._body(getattr(node, fld)))
+        return node
+
+
+def temporaries(source):
+    tree = ast.parse(source)
+    for f in [n for n in tree.body if isinstance(n, (ast.FunctionDef, ast.ClassDef))]:
+        _Hoist().visit(f)
+    ast.fix_missing_locations(tree)
+    return ast.unparse(tree) + '\n'
+
+
 TRANSFORMS = {
     'unparse': unparse,
     'rename_locals': rename_locals,
@@ -342,6 +384,7 @@ TRANSFORMS = {
     'nest_returns': nest_returns,
     'reorder_defs': reorder_defs,
     'kwargs_calls': kwargs_calls,
+    'temporaries': temporaries,
 }
 
 
